@@ -108,7 +108,7 @@ def main():
     os.makedirs(WORK, exist_ok=True)
     try:
         if cmd == "collect":
-            src = "/tmp/wt3"
+            src = os.environ.get("REFAC_SRC", "/tmp/wt4")
             pids = args[1:] or sorted(x for x in os.listdir(src)
                                       if os.path.isdir(os.path.join(src, x)))
             for pid in pids:
@@ -117,12 +117,12 @@ def main():
                     if not (os.path.isfile(os.path.join(sd, "patch.diff")) and
                             os.path.isfile(os.path.join(sd, "demo.py"))):
                         continue
-                    dd = os.path.join(REF, f"{pid}-r{k}")
+                    dd = os.path.join(REF, f"{pid}-r{k + int(os.environ.get('REFAC_OFFSET', '0'))}")
                     if os.path.exists(dd):
                         shutil.rmtree(dd)
                     shutil.copytree(sd, dd, ignore=shutil.ignore_patterns(
                         "__pycache__", "*.pyc", "*.pdx"))
-                    print("collected", f"{pid}-r{k}")
+                    print("collected", f"{pid}-r{k + int(os.environ.get('REFAC_OFFSET', '0'))}")
             return 0
         ids = [a for a in args[1:] if not a.startswith("--")] or sorted(
             x for x in os.listdir(REF) if os.path.isdir(os.path.join(REF, x)))
